@@ -9,9 +9,11 @@ import (
 	"errors"
 	"fmt"
 	"os"
+	"path/filepath"
 	"regexp"
 	"sort"
 	"strings"
+	"sync/atomic"
 	"verif/clih"
 
 	"ariga.io/atlas/sql/migrate"
@@ -210,6 +212,44 @@ func validate(s Snap) (err error) {
 	return migrate.Validate(s.mem())
 }
 
+var localSeq atomic.Int64
+
+// validateLocal is validate through a real directory on disk (LocalDir reads the files back); it
+// also reports whether the bytes the directory hands out are the bytes that were written.
+func validateLocal(s Snap) (err error, faithful string) {
+	defer func() {
+		if p := recover(); p != nil {
+			err = fmt.Errorf("panic: %v", p)
+		}
+	}()
+	root := "/dev/shm"
+	if st, e := os.Stat(root); e != nil || !st.IsDir() {
+		root = clih.ScratchRoot()
+	}
+	path := filepath.Join(root, fmt.Sprintf("verif-c06-%d-%d", os.Getpid(), localSeq.Add(1)))
+	if e := os.MkdirAll(path, 0o755); e != nil {
+		return nil, "harness: " + e.Error()
+	}
+	defer os.RemoveAll(path)
+	for n, c := range s {
+		if e := os.WriteFile(filepath.Join(path, n), []byte(c), 0o644); e != nil {
+			return nil, "harness: " + e.Error()
+		}
+	}
+	d, e := migrate.NewLocalDir(path)
+	if e != nil {
+		return nil, "harness: " + e.Error()
+	}
+	if files, e := d.Files(); e == nil {
+		for _, f := range files {
+			if want, ok := s[f.Name()]; ok && want != string(f.Bytes()) {
+				faithful = fmt.Sprintf("the directory hands out other bytes for %s than the file holds (%d instead of %d bytes)", f.Name(), len(f.Bytes()), len(want))
+			}
+		}
+	}
+	return migrate.Validate(d), faithful
+}
+
 // executeTo runs the real Executor.ExecuteTo(v) over the directory on a driver that accepts every
 // statement and a fresh revision store (what reading a directory as a state source up to a version
 // does): the executor validates the directory before it runs anything.
@@ -246,9 +286,27 @@ func versionsBeforeCheckpoint(s Snap) []string {
 	return vs
 }
 
-func judge(base, n Snap) (problem, key string, want int) {
+var reEditPos = regexp.MustCompile(`@(\d+)`)
+
+func judge(base, n Snap, edit string) (problem, key string, want int) {
 	want, key = classify(base, n)
 	err := validate(n)
+	// the same directory on disk: same verdict, and the files are handed out byte for byte
+	// (single-byte edits beyond the first bytes of a file go through the MemDir only: the two
+	// directory types differ in how a file is read, not in how its bytes are hashed).
+	lerr, unfaithful := err, ""
+	if m := reEditPos.FindStringSubmatch(edit); m == nil || len(m[1]) == 1 && m[1] <= "3" {
+		lerr, unfaithful = validateLocal(n)
+	}
+	if strings.HasPrefix(unfaithful, "harness: ") {
+		return unfaithful, "", want
+	}
+	if unfaithful != "" {
+		return unfaithful, "", want
+	}
+	if (err == nil) != (lerr == nil) {
+		return fmt.Sprintf("the directory in memory and the same directory on disk are judged differently: MemDir %v, LocalDir %v", err, lerr), key, want
+	}
 	switch want {
 	case wantErr:
 		if err == nil {
@@ -280,6 +338,20 @@ type tamper struct {
 
 func neighbourhood(base Snap, full bool, f func(tamper)) {
 	emit := func(name string, s Snap) { f(tamper{name, s}) }
+	// a byte order mark put in front of a file / taken away from it (three bytes at once).
+	for _, n := range base.names() {
+		if !strings.HasSuffix(n, ".sql") {
+			continue
+		}
+		s := base.clone()
+		if strings.HasPrefix(base[n], "\ufeff") {
+			s[n] = strings.TrimPrefix(base[n], "\ufeff")
+			emit("remove-bom "+n, s)
+		} else {
+			s[n] = "\ufeff" + base[n]
+			emit("prepend-bom "+n, s)
+		}
+	}
 	subst := []byte{'\n', ' '}
 	for _, n := range base.names() {
 		b := base[n]
@@ -596,6 +668,8 @@ func specials() []Snap {
 		mk(map[string]string{"1_a.sql": "A;\n", "2_b.sql": "A;\n", "3_c.sql": "A;\n"}),
 		mk(map[string]string{"1_a.sql": "", "2_b.sql": "B;\n"}),
 		mk(map[string]string{"1_a.sql": "A;\n", "notes.txt": "hello"}),
+		// a file that begins with a byte order mark.
+		mk(map[string]string{"1_a.sql": "\ufeffA;\n", "2_b.sql": "B;\n"}),
 		// a file name that begins with a blank.
 		mk(map[string]string{" 0_lead.sql": "L;\n", "1_a.sql": "A;\n"}),
 		// a file name that holds the text separating a name from its hash in a sum line.
@@ -608,7 +682,7 @@ func Run(r *report.Run) {
 	if r.Tier == "thorough" {
 		depth, tamperDepth, full = 4, 2, true
 	}
-	r.Rule = fmt.Sprintf("(1) BFS to depth %d over the writer alphabet {Planner.WritePlan x 6 formatters x 2 plans x {new version, overwrite version 1}, WriteCheckpoint x 2 plans, MemDir.CopyFiles into an empty MemDir / into one that holds the first file / newest file first} from the empty MemDir (and LocalDir to depth 2); canonical state = sorted (name, bytes) with 14-digit timestamps masked; invariant Validate(dir)==nil in every state. (2) for every reached state of depth<=%d with <=3 migration files plus 10 hand-built states (sum-ignored files first/middle/last, awkward names (a blank inside / in front, a second '.sql', the text 'h1:'), equal contents, empty file, non-migration file): the complete single-edit neighbourhood - every byte position of every file and of atlas.sum x {substitute (%s), delete, insert 4 values}, file add before/between/after x contents (new, sum-ignored, empty, copy of each file), remove, rename (order preserving / changing / out of *.sql), toggle the ignore directive, swap contents, move a tail across a file boundary, sum line remove/dup/swap (also with the first line computed anew, so that the sum file is consistent in itself), bytes moved between a name and its hash in a sum line, sum removed/emptied - judged by refSum; for directories holding a checkpoint a material edit must also make Executor.ExecuteTo(v) fail with a checksum error for every version v that precedes the checkpoint. (3) BFS over CLI histories on a real directory with the alphabet {migrate new, migrate diff to 2 desired schemas (SQLite dev db), migrate hash, hand edits: append to newest file, remove oldest file, add a file, drop the last sum line, rename newest file}: a writer command must refuse a directory whose sum does not match and leave it untouched, must leave a valid directory otherwise; in every reached state `migrate validate` and `migrate apply` (fresh database) must succeed iff the directory was not edited since atlas last wrote or re-hashed it, and the CLI must agree with migrate.Validate(LocalDir); an edited directory handed over as a state source (`schema inspect --url file://dir`, absolute and relative URL) must be refused too; (4) `migrate import` from hand-written source directories of the 5 third-party formats x version sets (digit boundaries 9/10/11, 1/2/10, zero-padded; flyway also with a repeatable, a baseline and an undo file, and with a file in a sub-directory of a directory that lives below a hidden directory): the written directory must validate and hold the statement of every step exactly once; non-trivial = tampered directory the model calls material; distinct = (state, edit)", depth, tamperDepth, map[bool]string{false: "bit flip, newline, space", true: "all 255 other values"}[full])
+	r.Rule = fmt.Sprintf("(1) BFS to depth %d over the writer alphabet {Planner.WritePlan x 6 formatters x 2 plans x {new version, overwrite version 1}, WriteCheckpoint x 2 plans, MemDir.CopyFiles into an empty MemDir / into one that holds the first file / newest file first} from the empty MemDir (and LocalDir to depth 2); canonical state = sorted (name, bytes) with 14-digit timestamps masked; invariant Validate(dir)==nil in every state. (2) for every reached state of depth<=%d with <=3 migration files plus 11 hand-built states (sum-ignored files first/middle/last, awkward names (a blank inside / in front, a second '.sql', the text 'h1:'), equal contents, empty file, a file starting with a byte order mark, non-migration file): the complete single-edit neighbourhood - every byte position of every file and of atlas.sum x {substitute (%s), delete, insert 4 values}, a byte order mark prepended / removed, file add before/between/after x contents (new, sum-ignored, empty, copy of each file), remove, rename (order preserving / changing / out of *.sql), toggle the ignore directive, swap contents, move a tail across a file boundary, sum line remove/dup/swap (also with the first line computed anew, so that the sum file is consistent in itself), bytes moved between a name and its hash in a sum line, sum removed/emptied - judged by refSum, through a MemDir and through a LocalDir on disk (same verdict; the files handed out are the bytes on disk); for directories holding a checkpoint a material edit must also make Executor.ExecuteTo(v) fail with a checksum error for every version v that precedes the checkpoint. (3) BFS over CLI histories on a real directory with the alphabet {migrate new, migrate diff to 2 desired schemas (SQLite dev db), migrate hash, hand edits: append to newest file, remove oldest file, add a file, drop the last sum line, rename newest file}: a writer command must refuse a directory whose sum does not match and leave it untouched, must leave a valid directory otherwise; in every reached state `migrate validate` and `migrate apply` (fresh database) must succeed iff the directory was not edited since atlas last wrote or re-hashed it, and the CLI must agree with migrate.Validate(LocalDir); an edited directory handed over as a state source (`schema inspect --url file://dir`, absolute and relative URL) must be refused too; (4) `migrate import` from hand-written source directories of the 5 third-party formats x version sets (digit boundaries 9/10/11, 1/2/10, zero-padded; flyway also with a repeatable, a baseline and an undo file, and with a file in a sub-directory of a directory that lives below a hidden directory): the written directory must validate and hold the statement of every step exactly once; non-trivial = tampered directory the model calls material; distinct = (state, edit)", depth, tamperDepth, map[bool]string{false: "bit flip, newline, space", true: "all 255 other values"}[full])
 	r.Assumptions = []string{
 		"material = the ordered list of *.sql files (name, bytes; bytes replaced by a marker for files whose first line carries atlas:sum ignore) changed, or atlas.sum changed other than in ASCII white space (space, tab, CR, VT, FF) or its final newline; immaterial edits of sum-ignored bodies and whitespace-only sum edits are counted, not judged",
 		"any of ErrChecksumMismatch / ErrChecksumFormat / ErrChecksumNotFound counts as a checksum error",
@@ -759,7 +833,7 @@ func Run(r *report.Run) {
 			return
 		}
 		neighbourhood(base, full, func(t tamper) {
-			problem, key, want := judge(base, t.out)
+			problem, key, want := judge(base, t.out, t.name)
 			tots[i].evals++
 			switch want {
 			case wantErr:
@@ -847,7 +921,7 @@ func Replay(r *report.Run, raw json.RawMessage) {
 		}
 		return
 	}
-	if p, key, _ := judge(v.Case.Base, v.Case.New); p != "" {
+	if p, key, _ := judge(v.Case.Base, v.Case.New, ""); p != "" {
 		r.Violate(key, v.Case.Edit+": "+p, v.Case.Case)
 	}
 }
